@@ -495,6 +495,9 @@ Section Out.
     Lemma pfw_arem_none wd v (m : list (N * bytes)) : alookup N.eqb wd m = None -> alookup N.eqb wd (aremove N.eqb v m) = None.
     Proof. intros Hm. destruct (N.eq_dec wd v) as [->|Hne]; [apply prem_eq | now rewrite prem_neq]. Qed.
 
+    Lemma wfp_unlabel_ne x r wd0 p (wd : N) : alookup beqb x (wfp r) <> Some wd -> alookup beqb x (unlabel C r wd0 p) <> Some wd.
+    Proof. intros H Hx. apply H. now apply (ReaderFixProofs.unlabel_sub C) in Hx. Qed.
+
     Lemma add_watch_dinv r k t p r' k' wd' : dinv k r -> add_watch C r k t p = Some (r', k', wd') -> dinv k' r' /\ ~ D wd'.
     Proof.
       intros H Ha. unfold add_watch in Ha. destruct (mem_nat (calls r) (c_faults C)); [discriminate|].
@@ -502,15 +505,15 @@ Section Out.
       destruct (watch_of_ino k (f_ino e)) as [w0|] eqn:Ew.
       - injection Ha as <- <- <-. apply watch_of_ino_some in Ew as [Hk _].
         assert (Hnd : ~ D (kw_wd w0)) by (intros Hd; destruct (H _ Hd) as (_ & Hl & _); exact (Hl w0 Hk eq_refl)).
-        split; [|exact Hnd]. intros wd Hd. destruct (H wd Hd) as (A & B & P1 & W1). cbn.
+        split; [|exact Hnd]. intros wd Hd. destruct (H wd Hd) as (A & B & P1 & W1). cbn -[unlabel].
         assert (Hne : kw_wd w0 <> wd) by (intros E; apply Hnd; now rewrite E).
-        split; [exact A|]. split; [|split; [now apply pfw_aset_none | intros x; now apply wfp_aset_ne]].
+        split; [exact A|]. split; [|split; [now apply pfw_aset_none | intros x; apply wfp_aset_ne; [exact Hne | apply wfp_unlabel_ne; apply W1]]].
         intros kw Hin. apply in_map_iff in Hin as (x0 & <- & Hx0). destruct (N.eqb (kw_wd x0) (kw_wd w0)); cbn; now apply B.
       - injection Ha as <- <- <-.
         assert (Hnd : ~ D (k_next_wd k)) by (intros Hd; destruct (H _ Hd) as (A & _); lia).
-        split; [|exact Hnd]. intros wd Hd. destruct (H wd Hd) as (A & B & P1 & W1). cbn.
+        split; [|exact Hnd]. intros wd Hd. destruct (H wd Hd) as (A & B & P1 & W1). cbn -[unlabel].
         assert (Hne : k_next_wd k <> wd) by lia.
-        split; [lia|]. split; [|split; [now apply pfw_aset_none | intros x; now apply wfp_aset_ne]].
+        split; [lia|]. split; [|split; [now apply pfw_aset_none | intros x; apply wfp_aset_ne; [exact Hne | apply wfp_unlabel_ne; apply W1]]].
         intros kw Hin. apply in_app_iff in Hin as [Hin|[<-|[]]]; [now apply B | exact Hne].
     Qed.
 
@@ -1270,9 +1273,13 @@ Lemma ops_x_cons C w hot o ops w' : apply_op w o = Some w' -> step_ok C w hot o 
 Proof. intros Ha Hs Hc. cbn [ops_x]. rewrite Ha. now split. Qed.
 
 (* ---------------------------------------------------------------- the F10 histories, repaired and pinned *)
-Definition cfgo (moveout : bool) : cfg :=
+(* cfgo true = the current code; cfgo false = the code before the repairs of the F10 family: neither the move-out
+   candidate (F10, c_fix_moveout) nor the deletion of a stale key in _add_watch (F10e, c_fix_relabel).  cfgo2 separates
+   the two flags. *)
+Definition cfgo2 (relabel moveout : bool) : cfg :=
   {| c_recursive := true; c_mask := WATCHDOG_ALL; c_root := pR; c_fix_ignored := true; c_fix_movein := true;
-     c_fix_simulate := true; c_fix_relabel := true; c_fix_moveout := moveout; c_faults := [] |}.
+     c_fix_simulate := true; c_fix_relabel := relabel; c_fix_moveout := moveout; c_faults := [] |}.
+Definition cfgo (moveout : bool) : cfg := cfgo2 moveout moveout.
 
 (* F10b: mv R/b O/x; (drain); mkdir R/b; mv R/b R/a      (preceded by mkdir R/b) *)
 Definition f10b_ops : list op :=
@@ -1288,13 +1295,22 @@ Definition run_ops (C : cfg) (ops : list op) : option (world * kst * rstate) :=
   | None => None
   end.
 
-(* pinned code (c_fix_moveout = false): after the F10d history the directory R/n is not covered - its descriptor was
+(* pinned code (cfgo false: c_fix_moveout = c_fix_relabel = false): after the F10d history the directory R/n is not covered - its descriptor was
    re-keyed to R/m/b through the stale entry R/b/b *)
 Lemma f10d_pinned_refuted :
   exists w' k' r', run_ops (cfgo false) f10d_ops = Some (w', k', r') /\ k_queue k' = [] /\ ~ Cover (cfgo false) (w_fs w') k' r'.
 Proof.
   eexists _, _, _. split; [vm_compute; reflexivity|]. split; [reflexivity|].
   intros H. apply coverb_spec in H. vm_compute in H. discriminate.
+Qed.
+
+(* either repair alone covers the F10d history: with the move-out repair the stale entry R/b/b is forgotten when the
+   directory leaves; with the F10e repair alone it is deleted when the directory comes back and is watched as R/n *)
+Lemma f10d_either_repair :
+  (exists w' k' r', run_ops (cfgo2 false true) f10d_ops = Some (w', k', r') /\ Cover (cfgo2 false true) (w_fs w') k' r') /\
+  (exists w' k' r', run_ops (cfgo2 true false) f10d_ops = Some (w', k', r') /\ Cover (cfgo2 true false) (w_fs w') k' r').
+Proof.
+  split; (eexists _, _, _; split; [vm_compute; reflexivity|]; apply coverb_spec; vm_compute; reflexivity).
 Qed.
 
 Lemma f10d_repaired :
@@ -1305,7 +1321,7 @@ Proof.
   split; [apply coverb_spec; vm_compute; reflexivity | reflexivity].
 Qed.
 
-(* F10b: the pinned code keeps the kernel watch of the departed directory for ever (3 watches for 2 directories in the
+(* F10b (does not depend on c_fix_relabel): the pinned code keeps the kernel watch of the departed directory for ever (3 watches for 2 directories in the
    tree), the repaired code has dropped it *)
 Lemma f10b_pinned_stale :
   exists w' k' r', run_ops (cfgo false) f10b_ops = Some (w', k', r') /\ length (k_watches k') = 3%nat /\
